@@ -7,6 +7,8 @@ import CasbinV.Driver.Persist
 import CasbinV.Driver.Fast
 import CasbinV.Driver.RoleManager
 import CasbinV.Driver.Builtin
+import CasbinV.Driver.RWLock
+import CasbinV.Driver.Synced
 /-! Line-protocol driver: `driver <family>`; exactly one answer line per input line.
     Lines starting with `#` are echoed; `#reset` also resets a stateful family to its initial state.
     Unknown or malformed lines answer `bad-op` (never defaulted). -/
@@ -27,7 +29,9 @@ def families : List (String × Family) := [
   ("persist", { σ := Casbin.Driver.Persist.DState, init := {}, step := Casbin.Driver.Persist.handle }),
   ("fast", { σ := Option Casbin.Driver.Fast.St, init := none, step := Casbin.Driver.Fast.step }),
   ("rm", { σ := Casbin.Driver.RoleManager.St, init := {}, step := Casbin.Driver.RoleManager.step }),
-  ("builtin", stateless Casbin.Driver.Builtin.handle)
+  ("builtin", stateless Casbin.Driver.Builtin.handle),
+  ("rwlock", { σ := Casbin.Driver.RWLock.St, init := Casbin.Driver.RWLock.initSt, step := Casbin.Driver.RWLock.handle }),
+  ("synced", stateless Casbin.Driver.Synced.handle)
 ]
 
 partial def runFamily (h out : IO.FS.Stream) (fam : Family) (s : fam.σ) : IO Unit := do
